@@ -1,5 +1,6 @@
 """C06 — Deletion analyses report the optimum of each knocked-out model."""
 from contracts import c06_deletion as C
+from contracts import c06_multi_deletion as CM
 from pyvc.contract import chain_hooks
 from props._generic import run_property, replay_with_driver
 
@@ -8,7 +9,8 @@ KEYS = ["_reaction_deletion", "_gene_deletion", "_get_growth", "Reaction.knock_o
 
 
 def run(rep):
-    run_property(rep, KEYS, hooks=chain_hooks(C.HOOKS_G, C.HOOKS_GG), lemmas=C.C7.mono_lemmas, explanation=(
+    run_property(rep, KEYS, hooks=chain_hooks(C.HOOKS_G, C.HOOKS_GG), lemmas=C.C7.mono_lemmas,
+                 more=[(["_multi_deletion", "_entities_ids", "_element_lists"], CM.HOOKS), (list(CM.WRAPPERS), CM.HOOKS_W)], explanation=(
         "Deductive (kernel): _reaction_deletion is proved, for every list of reaction ids (loop invariant over the list), to read growth "
         "and status at a moment when exactly the listed reactions have bounds (0,0) and every other reaction has the bounds it had at "
         "entry, to return what was read there together with the ids, and to close the context it opened (stack as found, its history "
@@ -17,12 +19,38 @@ def run(rep):
         "_gene_deletion is proved likewise (loop invariant over the id list, using Gene.knock_out's contract, the cross-reference "
         "invariant as precondition and the monotonicity of the and/or semantics): growth and status are read when exactly the listed "
         "genes have become non-functional and a reaction has bounds (0,0) exactly when it belongs to a listed gene and its rule is "
-        "false with its non-functional genes absent, every other reaction as at entry. The frozenset combination logic of "
-        "_multi_deletion, the pool fan-out, the pandas result frame and the essentiality thresholds are NOT proved: bounded driver "
-        "(every row against the exact optimum of an independently knocked-out copy; fba and linear moma; objects or ids; processes "
-        "1-3)."),
+        "false with its non-functional genes absent, every other reaction as at entry. "
+        "_multi_deletion is proved for both branches (entity gene / reaction, one or two element lists, the five methods, processes an "
+        "int or None -> configuration.processes; contracts/c06_multi_deletion.py) against ASSUMED contracts for exactly the library "
+        "calls - product / frozenset (a finite set C of combination identities = {frozenset_of(t): t of product(*lists)}, ghost "
+        "enumeration), map (lazy, in order), the pool (imap_unordered yields every f(x) once in an arbitrary order: ghost permutation "
+        "with its inverse) - and a RECORDED per-combination call of _reaction_deletion / _gene_deletion (result (c, growth, status) "
+        "recorded per combination; effect on the model = havoc of the proved contract's modifies clause + its context clause; "
+        "precondition: it returns normally in the serial branch): the returned frame is DataFrame(rows, columns=[ids, growth, status]) "
+        "with exactly len(C) rows, every combination of C has a row holding exactly (set(c), growth, status) the deletion function "
+        "returned for c, every row belongs to a combination and nothing occurs twice (loop invariant over the arrival index, through "
+        "the inverse permutation in the parallel branch, so independent of the permutation), the deletion function of the entity is "
+        "called exactly once per combination and never otherwise, processes = min(processes, len(C)), the pool is used exactly when "
+        "that is > 1 (one pool (processes, _init_worker, (model,)) created inside the function's context after the set-up call, one "
+        "imap_unordered(worker of the entity, C, chunksize = len(C) // processes >= 1), left again also when a task raises), "
+        "'moma' without a QP solver raises RuntimeError before anything is touched, add_moma / add_room are called exactly as "
+        "documented (linear = 'linear' in method, **kwargs to add_room) inside the function's own context, which is closed again on "
+        "every exit. The four public wrappers are proved to make exactly one _element_lists call on (model.reactions | model.genes, "
+        "the list arguments) and one _multi_deletion call with (model, entity, those lists, method / solution / processes / **kwargs "
+        "unchanged) and to return its result; _entities_ids (objects -> their ids, ids -> a copy) and _element_lists (None -> all "
+        "entities, second None -> the SAME list as the first) are proved for one or two arguments of every shape. What is still NOT "
+        "proved: that iterating a frozenset hands the deletion function exactly its member ids, the pool itself, pandas, and the "
+        "essentiality thresholds: bounded driver (every row against the exact optimum of an independently knocked-out copy; fba and "
+        "linear moma; objects or ids; processes 1-3)."),
         trusted=["optlang/GLPK optimize (assumed, monitored)", "C03: undo actions restore the model (abstract world)",
-                 "DictList.get_by_id (proved under C15)", "Reaction.knock_out (proved under C01/C07)"])
+                 "DictList.get_by_id (proved under C15)", "Reaction.knock_out (proved under C01/C07)",
+                 "itertools.product / frozenset / set as a finite set of opaque combination identities with a ghost enumeration (assumed "
+                 "contract itertools.product+frozenset)", "map is lazy and ordered (assumed contract builtins.map)",
+                 "multiprocessing.Pool: imap_unordered yields every result once in an arbitrary order (assumed contract "
+                 "Pool.imap_unordered, ghost permutation); each worker runs _init_worker on a private copy",
+                 "_reaction_deletion / _gene_deletion on a frozenset of ids as a recorded call with the frame of its proved contract "
+                 "(assumed contract deletion-call)", "add_moma / add_room as recorded calls that may raise (proved under C09)",
+                 "pandas.DataFrame(rows, columns) as a term of the opaque algebra"])
 
 
 def replay(payload):
